@@ -1,0 +1,10 @@
+//! Verification hooks, compiled only with the cargo feature `multiqueue2_verif` (off by default).
+//!
+//! With the feature on, the crate's atomics, fences, mutexes, condition variables and
+//! `yield_now` are the shim types defined in the file below (kept outside this repository, in the
+//! directory named by the build-time environment variable `MULTIQUEUE2_VERIF_DIR`), which report
+//! every shared-memory operation to a verification runtime before performing it. Each source
+//! module additionally includes a child module `verif_contracts` from the same directory.
+//! With the feature off nothing in the crate changes.
+#![allow(dead_code, unused_imports, unused_variables, unused_mut)]
+include!(concat!(env!("MULTIQUEUE2_VERIF_DIR"), "/verif_hooks.rs"));
